@@ -415,18 +415,7 @@ func RuleAddrPatterns(r *Report, p *Program) {
 			continue
 		}
 		// patterns in order of use
-		var pats []string
-		for _, b := range fn.DomPreorder() {
-			for _, in := range b.Instrs {
-				if c, ok := in.(*ssa.Call); ok {
-					if f := c.Call.StaticCallee(); f != nil && (calleeName(f) == "regexp.MatchString" || calleeName(f) == "regexp.MustCompile") {
-						if s, ok := constStr(c.Call.Args[0]); ok {
-							pats = append(pats, s)
-						}
-					}
-				}
-			}
-		}
+		pats := usedRegexPatterns(fn, p)
 		bad := ""
 		want := 2
 		if rs.Default == nil {
